@@ -1,4 +1,4 @@
-import TrionModel.Lemmas.Seg
+import TrionModel.Lemmas.SegRewrite
 /-!
 # C13 — output regions never overlap or overflow silently
 
@@ -13,13 +13,15 @@ overlaid with the active buffer. `Inv s` = map invariant (C15) ∧ the active re
 entirely in the closed map or entirely in the active buffer. `Op.wf s op`: selected addresses are `u32`,
 alignments positive, and a rewrite only targets a statement that was placed.
 
-FULL-STRENGTH STATEMENTS that are only partly proved (see props/C13.json):
-  theorem inv_step       : Inv s → Op.wf s op → Inv (step s op).1
-  theorem step_no_panic  : Inv s → Op.wf s op → (step s op).2 ≠ .panic
+FULL-STRENGTH STATEMENTS (proved below under one extra guard, hence named `…_partial`):
+  theorem inv_step         : Inv s → Op.wf s op → Inv (step s op).1
+  theorem step_no_panic    : Inv s → Op.wf s op → (step s op).2 ≠ .panic
   theorem rewrite_in_place : Inv s → (addr, d.length) ∈ s.pending → step s (.rewrite addr d) is `.ok`, changes
                              `image` exactly on [addr, addr + d.length) and puts `d` there
-They are proved below for every operation except `rewrite` (`…_partial`); the `rewrite` case is covered by
-the correspondence and the byte-level shadow oracle only.
+The guard is `Small s`: the active buffer holds fewer than 2^32 bytes. It is needed only for `rewrite`
+(`ActiveSegment::curr_addr` computes `buffer.len() as u32`, which wraps for a 4 GiB buffer in a region based
+at 0 with nothing above it); for all other operations the theorems hold without it
+(`inv_step_nonrewrite`, `step_no_panic_nonrewrite`).
 -/
 namespace Trion.Seg
 open Trion.Map Trion.Dict
@@ -28,15 +30,56 @@ open Trion.Map Trion.Dict
 theorem inv_init : Inv init := ⟨trivial, fun _ h => by simp [init] at h, fun _ h => by simp [init] at h⟩
 
 /-- C13 (invariant), all operations except `rewrite`. -/
-theorem inv_step_partial (s : State) (op : Op) (inv : Inv s) (wf : Op.wf s op)
+theorem inv_step_nonrewrite (s : State) (op : Op) (inv : Inv s) (wf : Op.wf s op)
     (hop : ∀ a d, op ≠ .rewrite a d) : Inv (step s op).1 :=
   (step_nonrewrite inv op wf hop).2.1
 
 /-- C13 (no panic), all operations except `rewrite`: none of the `assert_eq!` on put counts, the
 `remaining()` underflow, or an index panic of the map can fire. -/
-theorem step_no_panic_partial (s : State) (op : Op) (inv : Inv s) (wf : Op.wf s op)
+theorem step_no_panic_nonrewrite (s : State) (op : Op) (inv : Inv s) (wf : Op.wf s op)
     (hop : ∀ a d, op ≠ .rewrite a d) : (step s op).2 ≠ .panic :=
   (step_nonrewrite inv op wf hop).1
+
+/-- the active buffer holds fewer than 2^32 bytes -/
+def Small (s : State) : Prop := ∀ seg, s.active = some seg → seg.buf.length < 4294967296
+
+/-- C13 (a value resolved later is written at the address its statement occupied): wherever the placed
+statement now lives — in the still active region, or in the closed map because other regions have been
+opened since, including a region that ends exactly where the statement begins — the rewrite succeeds,
+changes the image exactly on `[addr, addr + len)`, puts the resolved bytes there, keeps the invariant. -/
+theorem rewrite_in_place_partial (s : State) (addr : Nat) (d : List UInt8) (inv : Inv s) (sm : Small s)
+    (hp : (addr, d.length) ∈ s.pending) :
+    (step s (.rewrite addr d)).2 = .ok ∧ Inv (step s (.rewrite addr d)).1 ∧
+    (∀ k, ¬ (addr ≤ k ∧ k < addr + d.length) → image (step s (.rewrite addr d)).1 k = image s k) ∧
+    (∀ i, i < d.length → image (step s (.rewrite addr d)).1 (addr + i) = d[i]?) :=
+  let h := rewrite_spec inv addr d hp sm
+  ⟨h.1, h.2.1, h.2.2.1, h.2.2.2.1⟩
+
+/-- C13 (invariant), every operation. -/
+theorem inv_step_partial (s : State) (op : Op) (inv : Inv s) (sm : Small s) (wf : Op.wf s op) :
+    Inv (step s op).1 := by
+  cases op with
+  | rewrite a d => exact (rewrite_spec inv a d wf sm).2.1
+  | select a => exact inv_step_nonrewrite s _ inv wf (fun _ _ h => by cases h)
+  | append d => exact inv_step_nonrewrite s _ inv wf (fun _ _ h => by cases h)
+  | align n => exact inv_step_nonrewrite s _ inv wf (fun _ _ h => by cases h)
+  | place d => exact inv_step_nonrewrite s _ inv wf (fun _ _ h => by cases h)
+  | close => exact inv_step_nonrewrite s _ inv wf (fun _ _ h => by cases h)
+
+/-- C13 (no panic), every operation: under the invariant, and with rewrites only of placed statements,
+no `assert!`/`assert_eq!`, `remaining()` underflow or map index panic can fire. -/
+theorem step_no_panic_partial (s : State) (op : Op) (inv : Inv s) (sm : Small s) (wf : Op.wf s op) :
+    (step s op).2 ≠ .panic := by
+  cases op with
+  | rewrite a d =>
+    have h := (rewrite_spec inv a d wf sm).1
+    show (rewrite s a d).2 ≠ .panic
+    rw [h]; simp
+  | select a => exact step_no_panic_nonrewrite s _ inv wf (fun _ _ h => by cases h)
+  | append d => exact step_no_panic_nonrewrite s _ inv wf (fun _ _ h => by cases h)
+  | align n => exact step_no_panic_nonrewrite s _ inv wf (fun _ _ h => by cases h)
+  | place d => exact step_no_panic_nonrewrite s _ inv wf (fun _ _ h => by cases h)
+  | close => exact step_no_panic_nonrewrite s _ inv wf (fun _ _ h => by cases h)
 
 /-- C13 (bytes are never replaced): no operation other than the rewrite of a placed statement changes a
 byte already present in the image — whether the operation succeeds or is refused. -/
@@ -119,7 +162,7 @@ theorem reachable_inv_partial (ops : List Op) (hops : ∀ op ∈ ops, (∀ a d, 
         | align n => exact h3 n rfl
         | rewrite a d => exact absurd rfl (h1 a d)
         | _ => trivial
-      exact ih _ (inv_step_partial s op inv wf h1) (fun o ho => h o (List.mem_cons_of_mem _ ho))
+      exact ih _ (inv_step_nonrewrite s op inv wf h1) (fun o ho => h o (List.mem_cons_of_mem _ ho))
   exact gen ops init inv_init hops
 
 -- non-vacuity: the F10 / F12 / F22 witnesses on the model (capacity 4 before 0x104; re-selecting a non-empty
